@@ -177,6 +177,16 @@ func c04RawFamilies(dir string) []c04Case {
 		for _, q := range []string{"SELECT m.val FROM %s", "SELECT m.tag, m.ts FROM %s", "SELECT COUNT(*) AS c FROM %s", "SELECT m.tag, COUNT(*) AS c FROM %s GROUP BY m.tag TRIGGER ON WATERMARK"} {
 			add("tvf/nested", fmt.Sprintf(q, md))
 		}
+		// ... and the same through an explicit projection (a Map node between the two functions) listing the columns in file order
+		proj := "m." + strings.Join(order, ", m.")
+		for _, q := range []string{
+			"SELECT e.window_end, COUNT(*) AS c FROM tumble(source=>TABLE(p), window_length=>INTERVAL 2 SECONDS) e GROUP BY e.window_end",
+			"SELECT e.window_end, SUM(e.val) AS s FROM tumble(source=>TABLE(p), window_length=>INTERVAL 2 SECONDS) e GROUP BY e.window_end",
+			"SELECT e.ts, e.window_end FROM tumble(source=>TABLE(p), window_length=>INTERVAL 2 SECONDS) e",
+			"SELECT e.window_end, e.tag FROM tumble(source=>TABLE(p), window_length=>INTERVAL 2 SECONDS, time_field=>DESCRIPTOR(ts)) e",
+		} {
+			add("tvf/nested-through-projection", fmt.Sprintf("WITH p AS (SELECT %s FROM %s) %s", proj, md, q))
+		}
 	}
 	return out
 }
@@ -220,7 +230,7 @@ func init() {
 		}
 		cases = append(cases, c04RawFamilies(tablesDir())...)
 		r.Bound = map[string]interface{}{"cases": len(cases)}
-		r.Rule = "every case is run with --optimize=true and --optimize=false through the real root command and the two outcomes are compared (row multisets; an error on one side only is a difference): C01's single-source space (every 5th quick), C02's 19 join shapes x table pairs, and one family per rewrite rule (filter merge incl. an inner filter guarding the outer predicate, unused map fields incl. unnest under DISTINCT/ORDER BY/LIMIT/GROUP BY, unused group-by aggregates, unused datasource fields for every ordered column subset of csv/json files, TVF sources range/max_diff_watermark/tumble); non-trivial = case where both runs return at least one row"
+		r.Rule = "every case is run with --optimize=true and --optimize=false through the real root command and the two outcomes are compared (row multisets; an error on one side only is a difference): C01's single-source space (every 5th quick), C02's 19 join shapes x table pairs, and one family per rewrite rule (filter merge incl. an inner filter guarding the outer predicate, unused map fields incl. unnest under DISTINCT/ORDER BY/LIMIT/GROUP BY, unused group-by aggregates, unused datasource fields for every ordered column subset of csv/json files, TVF sources range/max_diff_watermark/tumble, nested directly and through an explicit projection, over files with the time column first/middle/last); non-trivial = case where both runs return at least one row"
 		r.Assume("queries whose result is not determined (LIMIT cutting through a tie group, nested or top-level) are skipped", "both runs failing is agreement", "parquet column pruning and plugin predicate pushdown are exercised by C23/C26")
 		enum.Parallel(len(cases), func(i int) {
 			if r.TimeUp() {
